@@ -213,9 +213,12 @@ def parse_assumptions(log, printed):
                 blocks.append(cur)
             cur = []
         elif cur is not None:
-            m = re.match(r"^(\S+)\s*:", line)
+            # an axiom is printed as `name : type` or as `name` with `  : type` on the following line(s)
+            m = re.match(r"^([A-Za-z_][\w.']*)\s*(:.*)?$", line)
             if m and not line.startswith(" "):
                 cur.append(m.group(1))
+            elif line.startswith(" "):
+                pass
             elif line.strip() == "" or line.startswith("File "):
                 blocks.append(cur)
                 cur = None
